@@ -13,7 +13,7 @@ import (
 
 func init() {
 	props["C09"] = &propDef{
-		rule: "cases = (0) copied sample data: File.CopySampleData over sample intervals of generated progressive files, both modes, every work-buffer size 1..payload+2; random consistent sample tables of a progressive track (1..12 entries per run-length table, N <= 60 samples, chunk sizes 1..7 with description-id changes, ctts v0/v1 incl. zero-count entries, uniform/explicit stsz, stco/co64, stss present/absent/empty, sdtp), built through the real box encoders+decoders (alternating io.Reader and SliceReader paths) or AddEntry constructors; every query is evaluated EXHAUSTIVELY for all sample numbers 1..N, all intervals 1<=a<=b<=N, all chunk numbers and all times 0..total+2 and compared with a naive per-sample expansion; non-trivial = distinct table set with >= 2 stsc entries or >= 2 stts entries",
+		rule: "cases = (0) copied sample data: File.CopySampleData over sample intervals of generated progressive files, both modes, every work-buffer size 1..payload+2, and of the same tracks laid out in files with several media-data boxes (an empty mdat with 8-byte or largesize header before the media, after it, or both; both modes, work buffers {0,1,2,3,7,16,large}) against the bytes the tables' absolute chunk offsets point to; random consistent sample tables of a progressive track (1..12 entries per run-length table, N <= 60 samples, chunk sizes 1..7 with description-id changes, ctts v0/v1 incl. zero-count entries, uniform/explicit stsz, stco/co64, stss present/absent/empty, sdtp), built through the real box encoders+decoders (alternating io.Reader and SliceReader paths) or AddEntry constructors; every query is evaluated EXHAUSTIVELY for all sample numbers 1..N, all intervals 1<=a<=b<=N, all chunk numbers and all times 0..total+2 and compared with a naive per-sample expansion; non-trivial = distinct table set with >= 2 stsc entries or >= 2 stts entries",
 		gen:  genC09,
 		exec: execC09,
 	}
@@ -1032,80 +1032,151 @@ func c09CopiedSampleData(c *Ctx) {
 	nf := c.N(12, 120)
 	for it := 0; it < nf; it++ {
 		sub := c.R.Int63()
-		pf := c09CopyFile(sub)
-		fe, err1 := mp4.DecodeFile(bytes.NewReader(pf.bytes))
-		fl, err2 := mp4.DecodeFile(bytes.NewReader(pf.bytes), mp4.WithDecodeMode(mp4.DecModeLazyMdat))
-		if err1 != nil || err2 != nil {
-			c.Fail("C09-copied-data", "generated progressive file does not decode", fmt.Sprintf("copy file#%d", it), fmt.Sprint(err1, err2), "")
-			continue
-		}
-		for ti, t := range pf.tracks {
-			n := len(t.data)
-			total := 0
-			for _, d := range t.data {
-				total += len(d)
-			}
-			maxWS := total + 2
-			if maxWS > 80 {
-				maxWS = 80
-			}
-			for a := 1; a <= n; a++ {
-				for b := a; b <= n; b++ {
-					if n > 5 && c.R.Intn(3) != 0 {
-						continue
-					}
-					var want []byte
-					for k := a; k <= b; k++ {
-						want = append(want, t.data[k-1]...)
-					}
-					for ws := 0; ws <= maxWS; ws++ {
-						var work []byte
-						if ws > 0 {
-							work = make([]byte, ws)
-						}
-						for mode, f := range []*mp4.File{fe, fl} {
-							var buf bytes.Buffer
-							var rs *bytes.Reader
-							if mode == 1 {
-								rs = bytes.NewReader(pf.bytes)
-							}
-							var err error
-							p := safe(func() {
-								if rs != nil {
-									err = f.CopySampleData(&buf, rs, f.Moov.Traks[ti], uint32(a), uint32(b), work)
-								} else {
-									err = f.CopySampleData(&buf, nil, f.Moov.Traks[ti], uint32(a), uint32(b), work)
-								}
-							})
-							c.Eval("")
-							got := buf.Bytes()
-							if p != "" || err != nil || !bytes.Equal(got, want) {
-								c.Fail("C09-copied-data", "File.CopySampleData over a sample interval != the samples' bytes",
-									fmt.Sprintf("copy %d %d %d %d %d %d", sub, ti+1, a, b, ws, mode),
-									clip(fmt.Sprintf("%s err=%v %s", p, err, hx(got))), clip(hx(want)))
-							}
-						}
-					}
-					c.Count("copied-data interval")
+		// the file as generated (one mdat), every work-buffer size; the random thinning of intervals comes from c.R
+		c09CopyOneLayout(c, sub, 0, 0, c.R, nil)
+		// the same tracks in files holding SEVERAL media-data boxes: an empty mdat (8-byte or largesize header) before
+		// the one with the samples, after it, or both. The chunk offsets are absolute file offsets, so every query
+		// must return the bytes they point to whichever boxes surround them.
+		r2 := rand.New(rand.NewSource(sub ^ 0x6d646174))
+		for _, before := range []int{0, 8, 16} {
+			for _, after := range []int{0, 8, 16} {
+				if before != 0 || after != 0 {
+					c09CopyOneLayout(c, sub, before, after, r2, []int{0, 1, 2, 3, 7, 16, 1 << 20})
 				}
 			}
 		}
 	}
 }
 
-func c09CopyFile(sub int64) *progFile {
-	r := rand.New(rand.NewSource(sub))
-	return genProgFile(r, 1+r.Intn(2), 9)
+// c09CopyOneLayout: File.CopySampleData over the sample intervals of the file c09CopyFile(sub, before, after), decoded
+// in memory and lazily, with the given work-buffer sizes (nil: every size 0..min(total+2,80); sizes above that
+// bound are replaced by it). Expected = the bytes the sample tables point to in the file (chunk offset + sizes of
+// the earlier samples of the chunk), which are the bytes the generator wrote for the samples.
+func c09CopyOneLayout(c *Ctx, sub int64, before, after int, thin *rand.Rand, wsList []int) {
+	pf := c09CopyFile(sub, before, after)
+	layout := fmt.Sprintf("%d %d", before, after)
+	fe, err1 := mp4.DecodeFile(bytes.NewReader(pf.bytes))
+	fl, err2 := mp4.DecodeFile(bytes.NewReader(pf.bytes), mp4.WithDecodeMode(mp4.DecModeLazyMdat))
+	if err1 != nil || err2 != nil {
+		c.Fail("C09-copied-data", "generated progressive file does not decode", fmt.Sprintf("copy %d 1 1 1 0 0 %s", sub, layout), fmt.Sprint(err1, err2), "")
+		return
+	}
+	c.Count(fmt.Sprintf("copied-data file: empty mdat before=%d after=%d", before, after))
+	for ti, t := range pf.tracks {
+		n := len(t.data)
+		total := 0
+		for _, d := range t.data {
+			total += len(d)
+		}
+		maxWS := total + 2
+		if maxWS > 80 {
+			maxWS = 80
+		}
+		sizes := wsList
+		if sizes == nil {
+			for ws := 0; ws <= maxWS; ws++ {
+				sizes = append(sizes, ws)
+			}
+		}
+		// byte position of every sample according to the tables: chunk offset + sizes of the earlier samples in the chunk
+		var pos []int
+		k := 0
+		for ci, cl := range t.chunkLens {
+			o := int(t.chunkOffs[ci])
+			for j := 0; j < cl; j++ {
+				pos = append(pos, o)
+				o += len(t.data[k])
+				k++
+			}
+		}
+		for a := 1; a <= n; a++ {
+			for b := a; b <= n; b++ {
+				if n > 5 && thin.Intn(3) != 0 {
+					continue
+				}
+				var want []byte
+				for k := a; k <= b; k++ {
+					want = append(want, pf.bytes[pos[k-1]:pos[k-1]+len(t.data[k-1])]...)
+					if !bytes.Equal(pf.bytes[pos[k-1]:pos[k-1]+len(t.data[k-1])], t.data[k-1]) {
+						panic("c09 copied-data: generated file does not hold the sample where its tables point")
+					}
+				}
+				for _, ws := range sizes {
+					if ws > maxWS {
+						ws = maxWS
+					}
+					var work []byte
+					if ws > 0 {
+						work = make([]byte, ws)
+					}
+					for mode, f := range []*mp4.File{fe, fl} {
+						var buf bytes.Buffer
+						var rs *bytes.Reader
+						if mode == 1 {
+							rs = bytes.NewReader(pf.bytes)
+						}
+						var err error
+						p := safe(func() {
+							if rs != nil {
+								err = f.CopySampleData(&buf, rs, f.Moov.Traks[ti], uint32(a), uint32(b), work)
+							} else {
+								err = f.CopySampleData(&buf, nil, f.Moov.Traks[ti], uint32(a), uint32(b), work)
+							}
+						})
+						c.Eval("")
+						got := buf.Bytes()
+						if p != "" || err != nil || !bytes.Equal(got, want) {
+							req := fmt.Sprintf("copy %d %d %d %d %d %d", sub, ti+1, a, b, ws, mode)
+							if before != 0 || after != 0 {
+								req += " " + layout
+							}
+							c.Fail("C09-copied-data", "File.CopySampleData over a sample interval != the samples' bytes",
+								req, clip(fmt.Sprintf("%s err=%v %s", p, err, hx(got))), clip(hx(want)))
+						}
+					}
+				}
+				if before == 0 && after == 0 {
+					c.Count("copied-data interval")
+				} else {
+					c.Count("copied-data interval (several mdat boxes)")
+				}
+			}
+		}
+	}
 }
 
-// execC09Copy replays "copy <sub-seed> <track> <a> <b> <workspace> <lazy>"
+// c09CopyFile: the generated file of a sub-seed; before/after = header length (0 none, 8, 16) of an extra empty mdat
+// box before / after the media (the tracks are the same for every layout of a sub-seed, chunk offsets recomputed)
+func c09CopyFile(sub int64, before, after int) *progFile {
+	r := rand.New(rand.NewSource(sub))
+	pf := genProgFile(r, 1+r.Intn(2), 9)
+	if before == 0 && after == 0 {
+		return pf
+	}
+	q := *pf
+	q.tracks = nil
+	for _, t := range pf.tracks {
+		tc := *t
+		tc.chunkOffs = nil
+		q.tracks = append(q.tracks, &tc)
+	}
+	q.emptyMdatBefore, q.emptyMdatAfter = before, after
+	q.build(r)
+	return &q
+}
+
+// execC09Copy replays "copy <sub-seed> <track> <a> <b> <workspace> <lazy> [<empty mdat before> <after>]"
 func execC09Copy(f []string) string {
-	if len(f) != 7 {
+	if len(f) != 7 && len(f) != 9 {
 		return "bad-op"
 	}
 	var sub int64
 	fmt.Sscan(f[1], &sub)
-	pf := c09CopyFile(sub)
+	before, after := 0, 0
+	if len(f) == 9 {
+		before, after = atoi(f[7]), atoi(f[8])
+	}
+	pf := c09CopyFile(sub, before, after)
 	ti, a, b, ws, lazy := atoi(f[2])-1, atoi(f[3]), atoi(f[4]), atoi(f[5]), f[6] == "1"
 	var file *mp4.File
 	var err error
